@@ -199,10 +199,16 @@ class C12(E1Prop):
                                 [k['id'] for k in kids]), {})
             if rec['prs_after'].get(pid) == 'MERGED' and \
                     rec['prs_before'].get(pid) == 'OPEN':
+                queued = any(r.startswith('q/w/%d/' % pid)
+                             for r in before)
                 raise Violation(
-                    'C12', 'C12:merged-while-held:%s' % h,
-                    'PR #%d is held (%s) but job %s merged it' % (
-                        pid, h, rec['job']), {})
+                    'C12', 'C12:merged-while-held:%s%s' % (
+                        h, ':was-already-queued' if queued else ''),
+                    'PR #%d is held (%s) but job %s merged it%s' % (
+                        pid, h, rec['job'],
+                        ' (the hold was added after the PR had entered the '
+                        'queue; the queue merge does not look at comments)'
+                        if queued else ''), {})
             if h == 'foreign':
                 said = [c for c in w.comments(pid) if c['by'] == ROBOT]
                 if said:
